@@ -608,7 +608,7 @@ def overused_constant(source: str, *, root_is_static: bool) -> str:
         )
 
         name = ast.Name(id=variable_name)
-        assign = core.parse(f"{variable_name} = {code}").body[0]
+        assign = ast.parse(f"{variable_name} = {code}").body[0]  # Not cached, since it is modified
         assign.lineno = _get_constant_insertion_lineno(best_common_scope)
         assign.col_offset = best_common_scope.body[0].col_offset
         additions.add(assign)
